@@ -172,6 +172,12 @@ func (x *Exec) RunSim(name string, estSteps int, client func()) simhook.Result {
 			// run: the same work takes far more steps
 			maxSteps *= 40
 		}
+		// A run that livelocks burns twice this budget before the verdict
+		// (known-finding runs do so repeatedly): keep the worst case around
+		// a minute. Inputs are sized so that legitimate runs stay far below.
+		if maxSteps > 3000000 {
+			maxSteps = 3000000
+		}
 	}
 	cfg := simhook.Config{
 		Pick: func(r []simhook.GInfo, last int, lr bool) int {
